@@ -76,7 +76,10 @@ def handle (op : String) (args : Array String) : Option String :=
     | some p =>
       match resolveConflictsNew p.sha p.ver p.sets p.auth p.rejected with
       | none => some "err"
-      | some ids => some (showIDs ids)
+      | some ids =>
+        -- C10: the model is the executable definition (the algorithm with the library's refinements), so the
+        -- specification stream is the model's answer: a different result is a concrete violation
+        some (showIDs ids ++ "\t" ++ showIDs ids)
   | "stages", ver :: setsS :: authS :: rejS :: shaS :: evArgs =>
     match parseArgs ver setsS authS rejS shaS evArgs with
     | none => some "bad-op"
